@@ -21,7 +21,7 @@ pub fn gen(ctx: &Ctx) -> Vec<Value> {
         let sub = r.0;
         let depth = 1 + r.below(3) as u32;
         let schema = gen_schema::gen_schema(&mut r, depth);
-        let cfg = ValCfg { malformed_permille: if r.chance(1, 12) { 25 } else { 0 } };
+        let cfg = if r.chance(5, 6) { ValCfg::strict() } else { ValCfg::new(if r.chance(1, 3) { 25 } else { 0 }) };
         let nops = 2 + r.usize(if ctx.thorough() { 14 } else { 9 });
         let mut ops = Vec::new();
         for _ in 0..nops {
